@@ -322,6 +322,8 @@ def observe(result):
         else:
             mask = [FALSE] * len(flags)
         return Outcome(flags=flags, mask=mask, shape=tuple(result.a.shape), dtype=str(result._dt))
+    if not isinstance(result, np.ndarray) and hasattr(result, "compute") and hasattr(result, "dask"):
+        result = result.compute()       # a lazy dask result: compare the computed flags
     if isinstance(result, np.ndarray):
         data = np.ma.getdata(result)
         flags = [_term_of_flag(x) for x in data.flat]
